@@ -46,6 +46,9 @@ let split_line (l : string) : z list =
 let table : (string * (z list -> z)) list = [
   ("ctu_compl", judge_ctu_compl);
   ("ctu_test", judge_ctu_test);
+  ("pivot", judge_pivot);
+  ("tu", judge_tu);
+  ("regular", judge_regular);
 ]
 
 let () =
